@@ -7,10 +7,10 @@ OffsFull  == {0, 1, -1, 2, -2, 3, -3, 10, -10, 20, -20, -21}
 OffsNoMin == {0, 1, -1, 2, -2, 3, -3, 10, -10, 20, -20}
 OffsSmall == {0, 2, -3, 10, -21}
 OffsSmallNoMin == {0, 2, -3, 10, -20}
-\* weights: <= 3 (incl. exactly 3), 3 < w < 50, 50 <= w < 150, >= 150
-WeightsFull  == {2, 3, 4, 49, 50, 149, 150}
-WeightsSmall == {3, 4, 150}
-WeightsMid   == {2, 3, 4, 150}    \* the specification only distinguishes w > 3
+\* weights: <= 3 (incl. exactly 3, 0 / denormal, negative), 3 < w < 50, 50 <= w < 150, >= 150, NaN, +Inf, -Inf
+WeightsFull  == {2, 3, 4, 49, 50, 149, 150, 0, -5, WNaN, WPosInf, WNegInf}
+WeightsSmall == {3, 4, 150, WNaN}
+WeightsMid   == {2, 3, 4, 150, WNaN, WPosInf, WNegInf}    \* the specification only distinguishes w > 3
 \* advances (ms): 0, < 1 s, 1 s, 2 s, 2 s + 1, 6 s, 6 s + 1, 300 s + 1
 AdvsFull  == {0, 500, 1000, 2000, 2001, 6000, 6001, 300001}
 AdvsSmall == {0, 500, 2000, 2001, 6001}
